@@ -1136,8 +1136,22 @@ def rule_top_namespace_filter(ctx, rep: Report, rid="A3"):
             ok, f"guard {unparse(guard.test) if guard else None}", f"{ci.mod.rel}:{fn.lineno}")
     # prefix test normal form
     pm = prog.method("PybindWrapper", "_partial_match")
-    ok2 = _is_common_prefix_test(pm)
-    rep.add(rid, "_partial_match:all positions below min(len a, len b) equal", ok2, unparse(pm)[-200:].replace("\n", " "),
+    # decided by running the function on sample paths with the analyser's interpreter (whatever its spelling); the recogniser
+    # of normal forms is the fallback for a spelling the interpreter does not cover
+    from .rules_matlab import mini_exec, _PathEval
+    a_, b_ = func_params(pm)[1:3]
+    samples = [([""], ["", "g"], True), (["", "g"], ["", "g"], True), (["", "h"], ["", "g"], False), (["", "g", "x"], ["", "g"], True),
+               (["", "h", "x"], ["", "g"], False), (["", "g"], [""], True), (["x"], ["", "g"], False), (["", "g", "x"], ["", "g", "y"], False),
+               (["", "g", "x"], ["", "g", "x", "z"], True), ([], ["", "g"], True)]
+    try:
+        wrong = [(x, y) for x, y, w in samples if bool(mini_exec(pm, {"self": None, a_: x, b_: y})) != w]
+        ok2 = not wrong
+        pm_detail = f"answers differ from 'agree on every position both have' for {wrong[:2]}" if wrong else "agrees on all sample paths"
+    except _PathEval.Unknown:
+        ok2 = _is_common_prefix_test(pm)
+        pm_detail = unparse(pm)[-200:].replace("\n", " ")
+    rep.add(rid, "_partial_match:all positions below min(len a, len b) equal", ok2, pm_detail + ": a namespace that is a sibling of the top namespace at "
+            "the same depth (or diverges from it higher up) must be refused, one on the path to it or inside it accepted",
             f"{ci.mod.rel}:{pm.lineno}")
     # above the top namespace (d < 0) nothing is bound: only include lines are collected and deeper namespaces descended into
     dp = _Depth(fn, ns)
@@ -1187,6 +1201,26 @@ def rule_top_namespace_filter(ctx, rep: Report, rid="A3"):
 def rule_depth_relative(ctx, rep: Report, rid="A7"):
     ci, prog = pw(ctx)
     n = 0
+    # the module variable of a namespace is spelt from the components *below the top namespace by position*: evaluated by the
+    # analyser on sample paths (a component below the top namespace that repeats the name of one above it must stay)
+    from .rules_matlab import _PathEval
+    gm_ = prog.method("PybindWrapper", "_gen_module_var")
+    pname = func_params(gm_)[1]
+    rets_ = [r.value for r in walk_no_nested(gm_) if isinstance(r, ast.Return) and r.value is not None]
+    got_, want_, err_ = [], [], None
+    for top, path, want in ((["", "a"], ["", "a"], "m_"), (["", "a"], ["", "a", "b", "a"], "m_b_a"), ([""], ["", "x", "y"], "m_x_y"),
+                            (["", "a", "b"], ["", "a", "b", "c"], "m_c")):
+        want_.append(want)
+        try:
+            got_.append(_PathEval(gm_, path).ev(rets_[0], {pname: path, "self.top_module_namespaces": top}) if len(rets_) == 1 else None)
+        except _PathEval.Unknown as ex:
+            err_ = str(ex)
+            break
+    if err_ is not None:
+        raise AnalysisError(f"_gen_module_var: built in a way this rule cannot evaluate ({err_})")
+    rep.add(rid, "_gen_module_var:names the components below the top namespace, by position", got_ == want_,
+            f"for (top, path) = (a, a), (a, a::b::a), ('', x::y), (a::b, a::b::c) the module variable is {got_}, it has to be {want_}: a component that "
+            f"is dropped because it *equals* a top-namespace name (rather than because of where it stands) merges `a::b::a` into `a::b`", f"{ci.mod.rel}:{gm_.lineno}")
     for name in ("_gen_module_var", "wrap_namespace"):
         fn = prog.method("PybindWrapper", name)
         path = func_params(fn)[1] if name == "_gen_module_var" else _namespaces_local(fn)
